@@ -505,7 +505,7 @@ Lemma eval_decorator_S (f : nat) (dt : deco_t) (s : rstate) :
               | p :: _ =>
                   match pj_value p with
                   | JStr name =>
-                      ROk tt (set_local_helpers s1 (map_insert (s_local_helpers s1) name (HLocal name)))
+                      ROk tt (set_local_helpers s1 (map_insert (s_local_helpers s1) name (HLocal (sethelper_tag d name))))
                   | _ => rfail (ROther (`"sethelper")) s1
                   end
               | [] => rfail (ROther (`"sethelper")) s1
